@@ -74,7 +74,15 @@ class PrintAstVisitor(Visitor):
 
     @staticmethod
     def leave_document(node: PrintedNode, *_args: Any) -> str:
-        return join(node.definitions, "\n\n")
+        definitions = list(node.definitions)
+        for index in range(1, len(definitions)):
+            # The query short form is ambiguous after a definition that could be
+            # continued with a block (e.g. a type definition without fields).
+            if definitions[index].startswith("{") and not definitions[
+                index - 1
+            ].endswith("}"):
+                definitions[index] = "query " + definitions[index]
+        return join(definitions, "\n\n")
 
     @staticmethod
     def leave_operation_definition(node: PrintedNode, *_args: Any) -> str:
